@@ -12,6 +12,11 @@ number of bytes consumed (`len`), and the value of Go's `isCharacter` predicate
                  apostrophe directly between two word characters; keep pieces of ≥ 3 bytes
 * `uniqueWords`– Impl model of the `uniqueMap` / `unique` loop (parameter: collation hash `key`)
 * `Index` …    – Spec of the index tables as functions of the rows; `ftMatch` – Spec of MATCH
+* `Layout`, `getKeyColumns`, `parentIndexCols` – key layouts of the parent table and Impl model of
+                 sql/fulltext/fulltext.go `GetKeyColumns` (primary key in declaration order / first usable
+                 unique key / row hash) and of the parent index sql/rowexec/fulltext_filter.go selects
+* `filterWalk`, `implWhere` – Impl model of `fulltextFilterTableRowIter`: DOC_COUNT entries resolved back
+                 to parent rows by probing the parent index positionally with the stored key values
 -/
 namespace Gms.Fulltext
 
@@ -136,9 +141,12 @@ def matchCount {κ : Type} [DecidableEq κ] (key : Word → κ) (minLen maxLen :
 
 /-! ### Rows, DML histories, Spec of the pseudo-index tables -/
 
+/-- A row of the parent table: the integer columns `id` (ordinal 0) and `k2` (ordinal 1; constantly
+0 in layouts without that column) and the indexed text columns. -/
 structure Row where
   id : Nat
   cols : List (Option (List R))
+  k2 : Nat := 0
   deriving DecidableEq, Repr
 
 inductive Op where
@@ -146,17 +154,91 @@ inductive Op where
   | del (id : Nat)                                 -- DELETE … WHERE id = k
   | upd (id : Nat) (cols : List (Option (List R))) -- UPDATE … SET <text columns> WHERE id = k
   | rekey (id new : Nat)                           -- UPDATE … SET id = new WHERE id = k
+  | rekey2 (id new : Nat)                          -- UPDATE … SET k2 = new WHERE id = k
   deriving Repr
 
-/-- Reference table semantics. `keyed`: `id` is the primary key (a statement that would create
-a duplicate fails and changes nothing); otherwise duplicates are allowed and `id` is just a column. -/
-def applyOp (keyed : Bool) (rows : List Row) : Op → List Row
-  | .ins r => if keyed && rows.any (·.id == r.id) then rows else rows ++ [r]
+/-! ### Key layouts and the resolution of key columns (sql/fulltext/fulltext.go `GetKeyColumns`,
+sql/rowexec/fulltext_filter.go) -/
+
+/-- Key layout of the parent table over the integer columns `id` (ordinal 0) and `k2` (ordinal 1).
+`pk`: PRIMARY KEY column ordinals in *declaration* order (`[]` = no primary key); `uks`: the UNIQUE
+KEYs in the order `GetIndexes` lists them (index name), each with its column ordinals in declaration
+order; `nn`: ordinals declared NOT NULL. The generated rows never hold NULL in a key column, so every
+declared key is enforced. -/
+structure Layout where
+  pk : List Nat
+  uks : List (List Nat)
+  nn : List Nat
+  deriving DecidableEq, Repr
+
+/-- Go: `fulltext.KeyType`. `unique i`: the i-th UNIQUE KEY of the layout (`KeyColumns.Name`). -/
+inductive KeyType where
+  | primary
+  | unique (i : Nat)
+  | none
+  deriving DecidableEq, Repr
+
+/-- Go: `fulltext.KeyColumns` — `Positions` are column ordinals of the parent table, in the order in
+which the key values are stored as `C0, C1, …` in DOC_COUNT / POSITION. -/
+structure KeyCols where
+  type : KeyType
+  positions : List Nat
+  deriving DecidableEq, Repr
+
+/-- Go: the loop `for _, index := range indexes` of `GetKeyColumns`: the first unique index none of
+whose columns is nullable. -/
+def firstUsable (nn : List Nat) : Nat → List (List Nat) → Option (Nat × List Nat)
+  | _, [] => none
+  | i, cs :: rest => if cs.all (fun c => nn.contains c) then some (i, cs) else firstUsable nn (i + 1) rest
+
+/-- Go: `GetKeyColumns`. Primary key: `positions = copy of sch.PkOrdinals` (declaration order, *not*
+schema order); else the first usable unique index: `index.Expressions()` order; else the row hash. -/
+def getKeyColumns (lay : Layout) : KeyCols :=
+  if lay.pk ≠ [] then { type := .primary, positions := lay.pk }
+  else match firstUsable lay.nn 0 lay.uks with
+    | some (i, cs) => { type := .unique i, positions := cs }
+    | none => { type := .none, positions := [] }
+
+/-- Go: `FulltextFilterTable.PartitionRows` picks the parent index `PRIMARY` / `KeyCols.Name`; its
+columns (memory backend: built from `PkOrdinals` / the declared column list) in index order. -/
+def parentIndexCols (lay : Layout) : KeyType → List Nat
+  | .primary => lay.pk
+  | .unique i => lay.uks.getD i []
+  | .none => []
+
+/-- DOC_COUNT / POSITION are keyed by key columns (not by the row hash). -/
+def keyedIdx (lay : Layout) : Bool := (getKeyColumns lay).type != .none
+
+/-- Value of the integer column with the given ordinal. -/
+def val (r : Row) (p : Nat) : Nat := if p = 0 then r.id else r.k2
+
+/-- Go: the key values of a row in the order of `cs` (`for _, refCol := range KeyCols.Positions`). -/
+def keyVals (cs : List Nat) (r : Row) : List Nat := cs.map (val r)
+
+/-- Every declared key of the table. -/
+def constraints (lay : Layout) : List (List Nat) := (if lay.pk ≠ [] then [lay.pk] else []) ++ lay.uks
+
+/-- The two rows cannot coexist: they agree on all columns of some declared key. -/
+def conflict (lay : Layout) (a b : Row) : Bool := (constraints lay).any fun cs => keyVals cs a == keyVals cs b
+
+def targets (k : Nat) (rows : List Row) : List Row := rows.filter (·.id == k)
+
+/-- Reference table semantics. A statement that would create a duplicate under a declared key
+fails and changes nothing (the engine is statement-atomic); without keys duplicates are allowed. -/
+def applyOp (lay : Layout) (rows : List Row) : Op → List Row
+  | .ins r => if rows.any (conflict lay r) then rows else rows ++ [r]
   | .del k => rows.filter (fun r => r.id != k)
   | .upd k cols => rows.map (fun r => if r.id == k then { r with cols := cols } else r)
   | .rekey k n =>
-    if keyed && k != n && rows.any (·.id == k) && rows.any (·.id == n) then rows
+    if k != n && (targets k rows).any (fun t => rows.any fun r => r.id != k && conflict lay { t with id := n } r) then rows
     else rows.map (fun r => if r.id == k then { r with id := n } else r)
+  | .rekey2 k n =>
+    -- every target ends as (k, n): two targets collide under any declared key; a single moved
+    -- target may collide with a row that is not a target
+    let ts := targets k rows
+    if (constraints lay != [] && ts.length ≥ 2) ||
+        ts.any (fun t => t.k2 != n && rows.any fun r => r.id != k && conflict lay { t with k2 := n } r) then rows
+    else rows.map (fun r => if r.id == k then { r with k2 := n } else r)
 
 def docOf (r : Row) : List R := joinDoc 0 r.cols
 
@@ -164,30 +246,27 @@ def docOf (r : Row) : List R := joinDoc 0 r.cols
 def hasLong (minLen maxLen : Nat) (r : Row) : Bool :=
   (tokenize minLen (docOf r)).any fun e => bytes e.1 > maxLen
 
-def targets (k : Nat) (rows : List Row) : List Row := rows.filter (·.id == k)
+/-- The rows a statement really changes: the engine skips a row whose new image equals the old one
+(`UPDATE t SET k2 = 2` on a row that already has `k2 = 2`), so the Full-Text editor never sees it. -/
+def touched (rows : List Row) : Op → List Row
+  | .ins _ => []
+  | .del k => targets k rows
+  | .upd k cols => (targets k rows).filter (fun r => r.cols != cols)
+  | .rekey k n => (targets k rows).filter (fun r => r.id != n)
+  | .rekey2 k n => (targets k rows).filter (fun r => r.k2 != n)
 
 /-- Impl model of a DML statement on a FULLTEXT table: `TableEditor.Delete` (also the first half of
 `Update`) has no `len(word) > maxWordLength` guard in its DOC_COUNT loop; deleting the over-long
-key from the `varchar(84)` column is an error, so a statement that deletes or updates a row whose
-document contains an over-long word fails and is discarded as a whole. -/
-def applyOpImpl (minLen maxLen : Nat) (keyed : Bool) (rows : List Row) (op : Op) : List Row :=
-  let stuck (k : Nat) := (targets k rows).any (hasLong minLen maxLen)
-  match op with
-  | .ins _ => applyOp keyed rows op
-  | .del k => if stuck k then rows else applyOp keyed rows op
-  | .upd k _ => if stuck k then rows else applyOp keyed rows op
-  | .rekey k _ => if stuck k then rows else applyOp keyed rows op
+key from the `varchar(84)` column is an error, so a statement that deletes or really changes a row
+whose document contains an over-long word fails and is discarded as a whole. -/
+def applyOpImpl (minLen maxLen : Nat) (lay : Layout) (rows : List Row) (op : Op) : List Row :=
+  if (touched rows op).any (hasLong minLen maxLen) then rows else applyOp lay rows op
 
-/-- Defect region: the history deletes / updates a row that contains an over-long word. -/
-def rStuck (minLen maxLen : Nat) (keyed : Bool) : List Row → List Op → Bool
+/-- Defect region: the history deletes / changes a row that contains an over-long word. -/
+def rStuck (minLen maxLen : Nat) (lay : Layout) : List Row → List Op → Bool
   | _, [] => false
   | rows, op :: ops =>
-    let stuck (k : Nat) := (targets k rows).any (hasLong minLen maxLen)
-    (match op with
-      | .ins _ => false
-      | .del k => stuck k
-      | .upd k _ => stuck k
-      | .rekey k _ => stuck k) || rStuck minLen maxLen keyed (applyOpImpl minLen maxLen keyed rows op) ops
+    (touched rows op).any (hasLong minLen maxLen) || rStuck minLen maxLen lay (applyOpImpl minLen maxLen lay rows op) ops
 
 def dedup {α : Type} [DecidableEq α] : List α → List α
   | [] => []
@@ -202,9 +281,9 @@ variable {κ : Type} [DecidableEq κ] (key : Word → κ) (minLen maxLen : Nat)
 def uniqOf (r : Row) : List (Word × κ × Nat) := uniqueWords key ((tokenize minLen (docOf r)).map (·.1))
 
 /-- DOC_COUNT: per indexed row and unique storable word (first spelling): occurrences in the document. -/
-def specDocCount (keyed : Bool) (rows : List Row) : List (Word × Nat × Nat) :=
+def specDocCount (keyed : Bool) (rows : List Row) : List (Word × Row × Nat) :=
   (indexedRows keyed rows).flatMap fun r =>
-    ((uniqOf key minLen r).filter (fun e => bytes e.1 ≤ maxLen)).map fun e => (e.1, r.id, e.2.2)
+    ((uniqOf key minLen r).filter (fun e => bytes e.1 ≤ maxLen)).map fun e => (e.1, r, e.2.2)
 
 /-- GLOBAL_COUNT: per collation key of a storable word, the number of rows (with multiplicity)
 whose document contains it. -/
@@ -217,9 +296,9 @@ def specRowCount (keyed : Bool) (rows : List Row) : List (Nat × Nat) :=
   (indexedRows keyed rows).map fun r => ((rows.filter (· = r)).length, (uniqOf key minLen r).length)
 
 /-- POSITION: per indexed row, every storable word occurrence with its recorded position. -/
-def specPosition (keyed : Bool) (rows : List Row) : List (Word × Nat × Nat) :=
+def specPosition (keyed : Bool) (rows : List Row) : List (Word × Row × Nat) :=
   (indexedRows keyed rows).flatMap fun r =>
-    ((tokenize minLen (docOf r)).filter (fun e => bytes e.1 ≤ maxLen)).map fun e => (e.1, r.id, e.2)
+    ((tokenize minLen (docOf r)).filter (fun e => bytes e.1 ≤ maxLen)).map fun e => (e.1, r, e.2)
 
 /-- Spec: rows selected by `WHERE MATCH (cols) AGAINST (query)` — each matching row once. -/
 def specMatch (rows : List Row) (query : List R) : List Row :=
@@ -231,6 +310,34 @@ DOC_COUNT entries and their parent rows — a row is delivered once per matched 
 Filter above keeps every copy). Without a key the whole table is scanned once. -/
 def implMatchWhere (keyed : Bool) (rows : List Row) (query : List R) : List Row :=
   if keyed then rows.flatMap fun r => List.replicate (matchCount key minLen maxLen query (docOf r)) r
+  else specMatch key minLen maxLen rows query
+
+/-- The document of the row contains a storable word of class `k` (⇔ DOC_COUNT has an entry
+`(k, key of the row)` when the index is in sync). -/
+def hasWord (k : κ) (r : Row) : Bool := (indexable minLen maxLen (docOf r)).any fun w' => k = key w'
+
+/-- Go: the parent-index lookup of `fulltextFilterTableRowIter.Next`: `ranges[i]` (the i-th key value
+of the DOC_COUNT row) is a closed point range on the i-th column of the parent index. -/
+def lookup (ixCols : List Nat) (rows : List Row) (vals : List Nat) : List Row :=
+  rows.filter fun r => keyVals ixCols r == vals
+
+/-- Impl model of `fulltextFilterTableRowIter` (keyed tables), with the key-column resolution made
+explicit: for every unique word of the search string, for every DOC_COUNT entry of that word — one per
+row containing it, holding the row's key values in the order `ps` = `KeyColumns.Positions` — the
+parent index (columns `ixCols`) is probed with those values *positionally*, and every parent row found
+is delivered. -/
+def filterWalk (ps ixCols : List Nat) (rows : List Row) (query : List R) : List Row :=
+  (uniqueWords key ((tokenize minLen query).map (·.1))).flatMap fun e =>
+    (rows.filter (hasWord key minLen maxLen e.2.1)).flatMap fun r => lookup ixCols rows (keyVals ps r)
+
+/-- Impl model of the WHERE form for a key layout: the walk above with the positions `GetKeyColumns`
+returns and the columns of the index the filter selects; a full scan when the index is keyed by the
+row hash. (The `Filter` node above re-evaluates MATCH on every delivered row.) -/
+def implWhere (lay : Layout) (rows : List Row) (query : List R) : List Row :=
+  let kc := getKeyColumns lay
+  if keyedIdx lay then
+    (filterWalk key minLen maxLen kc.positions (parentIndexCols lay kc.type) rows query).filter
+      fun r => ftMatch key minLen maxLen query (docOf r)
   else specMatch key minLen maxLen rows query
 
 /-- Defect region of the WHERE form: a keyed table in which some row contains two different words
